@@ -166,6 +166,14 @@ def _c08():
     for kind in ("spin", "queuing", "mutex"):
         sw = [{"prog": prog_str(t)} for t in thread_programs(["W", "t"], 3, 2)]
         legs.append(sweep("sweep-%s-3x2" % kind, "c08_mutex", (1, 2), sw, {"kind": kind}, flags=("-fp", "-hb"), what="%s: every assignment of lock / try_lock section sequences of length 1-2 to three threads" % kind))
+    for kind in ("queuing", "queuing_rw", "spin", "spin_rw", "mutex", "rw"):
+        alpha = ["W", "t"] if kind in ("queuing", "spin", "mutex") else ["W", "R", "t", "U"]
+        sw = [{"prog": prog_str(t), "reuse": 1} for t in thread_programs(alpha, 2, 3, keep=lambda c: sum(len(th) for th in c) >= 3)]
+        legs.append(sweep("sweep-%s-reuse" % kind, "c08_mutex", (2, 3), sw, {"kind": kind}, flags=("-fp", "-hb"), what="%s: every thread keeps one scoped_lock object for all its sections (the queue node in it is reused after release): every pair of section sequences of length 1-3, at least 3 sections in total" % kind,
+                          tiers=("quick", "thorough") if kind == "queuing" else ("thorough",)))
+    for name, prm in [("addr-mutex-ba", {"kind": "mutex", "order": "ba", "unlock": "ab"}), ("addr-mutex-ab", {"kind": "mutex", "order": "ab", "unlock": "ba"}),
+                      ("addr-rw-ba", {"kind": "rw", "order": "ba", "unlock": "ab"}), ("addr-rw-reader", {"kind": "rw", "order": "ba", "unlock": "ab", "reader": 1})]:
+        legs.append(leg(name, "c02_addr", (2, 3), prm, what="no lost grant across objects: two mutexes whose addresses share an address-waiter bucket, one sleeper each; unlocking one must wake its own sleeper"))
     for kind in ("spin_rw", "queuing_rw", "rw"):
         sw = [{"prog": prog_str(t)} for t in thread_programs(["W", "R", "U", "D", "t", "r"], 3, 1)]
         legs.append(sweep("sweep-%s-3x1" % kind, "c08_mutex", (1, 2), sw, {"kind": kind}, flags=("-fp", "-hb"), what="%s: every multiset of three sections out of write / read / upgrade / downgrade / try-write / try-read" % kind,
